@@ -185,18 +185,28 @@ def run_workers(prop: str, tier: str, seed: int, extra_args=None, budget=None):
                                                     stderr=subprocess.STDOUT, text=True)))
     results = []
     errors = []
+    mod = importlib.import_module(f"harness.props.{prop.lower()}")
+    wb = budget or (getattr(mod, "BUDGET_QUICK", 75) if tier == "quick" else getattr(mod, "BUDGET_THOROUGH", 900))
+    deadline = time.time() + wb * 2 + 240          # workers stop generating at their budget; beyond this they are stuck
     for wid, h, out, p in procs:
         try:
-            so, _ = p.communicate(timeout=7200)
+            so, _ = p.communicate(timeout=max(5, deadline - time.time()))
         except subprocess.TimeoutExpired:
             p.kill()
-            errors.append(f"worker {wid} timed out")
+            try:
+                p.communicate(timeout=10)
+            except Exception:
+                pass
+            errors.append(f"worker {wid} (hashseed {h}) exceeded the hard limit of {int(wb * 2 + 240)} s and was killed")
             continue
         if p.returncode != 0 or not os.path.exists(out):
             errors.append(f"worker {wid} (hashseed {h}) rc={p.returncode}: {so[-1500:]}")
             continue
         r = json.load(open(out))
         r["hashseed"] = h
+        if r.get("abandoned_at"):
+            errors.append(f"worker {wid} (hashseed {h}) abandoned its run (results so far are kept): "
+                          + json.dumps(r["abandoned_at"], default=str)[:700])
         results.append(r)
     shutil.rmtree(tmp, ignore_errors=True)
     return results, errors
